@@ -140,6 +140,13 @@ class C13Executor(SymListMixin, ET.ETreeMixin, Executor):
         return super().compare(st, op, a, b, node)
 
     # ---- collections.deque used as a work list: a list with popleft() / appendleft()
+    def b_collection(self, st, name, args, node):
+        # list(<element of symbolic shape>): its children in document order, as a list of symbolic length
+        if name == "list" and len(args) == 1 and isinstance(args[0], VExt) and args[0].sort == "Elem" and ET.node_of(args[0]) is None:
+            st.assume(ET.NCH(args[0].t) >= 0)
+            return [(st, VRef(st.alloc(HeapObj("slist", VSeq(ET.NCH(args[0].t), lambda i, e=args[0].t: ET.elem(ET.CH(e, i)), "Elem")), self.refs)))]
+        return super().b_collection(st, name, args, node)
+
     def call(self, st, f, args, kwargs, node):
         if isinstance(f, VFunc) and f.how == "ext" and f.a == "collections.deque" and len(args) <= 1 and not kwargs:
             items = self.concrete_items(st, args[0]) if args else []
@@ -846,7 +853,7 @@ def docx_contracts(reg):
 
     def inv_len(lc):
         a, b = lc.ex.as_seq(lc.st, lc[tabs]), lc.ex.as_seq(lc.st, lc[anch])
-        return z3.BoolVal(False) if a is None or b is None else a.n == b.n
+        return z3.BoolVal(False) if a is None or b is None else a.length == b.length
 
     def inv_rows(lc):
         return z3.And(seq_eq(lc.ex.as_seq(lc.st, lc[rows["built"]]), take(grid(lc[rows["iter_base"]].t), lc.i)), inv_len(lc))
@@ -859,7 +866,7 @@ def docx_contracts(reg):
         if not isinstance(r, VTuple) or len(r.items) != 2:
             return z3.BoolVal(False)
         a, b = c.ex.as_seq(c.st, r.items[0]), c.ex.as_seq(c.st, r.items[1])
-        return z3.BoolVal(False) if a is None or b is None else a.n == b.n
+        return z3.BoolVal(False) if a is None or b is None else a.length == b.length
 
     GRID3, INTS = ("list", ("list", ("list", "str"))), ("list", "int")
     return [FnContract(
@@ -1250,8 +1257,7 @@ def contracts(reg):
     out += dim_contracts(reg)
     out += value_contracts(reg)
     out += pptx_contracts(reg)
-    # docx_contracts(reg) is NOT wired in yet (round 6, open): the loop variable of `for child in list(body)` reaches
-    # `_iter_cell_paragraphs` as an unknown value, so the function would be OUT-OF-SUBSET (exit 2) instead of proved
+    out += _guarded(docx_contracts, reg)
     out += rtf_contracts(reg)
     out += ods_value_contracts(reg)
     return out
